@@ -227,7 +227,7 @@ def harness_dir(crate, repo):
     alternative repository path (mutant worktrees): a scratch copy with the path substituted."""
     if os.path.abspath(repo) == "/repo":
         return os.path.join(HARNESS, crate), None
-    key = hashlib.sha1(os.path.abspath(repo).encode()).hexdigest()[:10]
+    key = hashlib.sha1((os.path.abspath(repo) + "|" + crate).encode()).hexdigest()[:10]   # per repo AND crate: concurrent checks do not share it
     root = f"/tmp/verif-alt-{key}"
     dst = os.path.join(root, "harness", crate)
     os.makedirs(os.path.join(root, "harness"), exist_ok=True)
